@@ -11,8 +11,8 @@ from .. import cachelab as cl
 PROPERTY = "C18"
 LEVEL = "exploration"
 RULE = ("bounded-exhaustive histories: every sequence of length <= L (quick L=4, thorough L=5) over the 9 operation "
-        "symbols {get A, get B, get [A,C], get A<<x, remove A, purge, reopen, touch B, foreign} x 3 size limits "
-        "(no eviction / one eviction / request larger than the cache) x {sequential, parallel} executed on the real "
+        "symbols {get A, get B, get [A,C], get A<<x, remove A, purge, reopen, touch B, foreign} x 4 size limits "
+        "(no eviction / one eviction / a request that fills the cache exactly / request larger than the cache) x {sequential, parallel} executed on the real "
         "FileCache in a scratch directory and judged after every operation against an executable reference model "
         "(hits/misses from an instrumented resource log, bytes, file names, size bound, eviction relation, entry "
         "count vs directory listing, foreign files, audit-hook events); plus seeded random histories of 60-200 "
@@ -36,7 +36,7 @@ REQUIRED_COUNTERS = {"C18.evictions": 10, "C18.hits": 10, "C18.enlargements": 3,
                      "C18.histories": 50}
 TIMEOUT = {"quick": 900, "thorough": 3600}
 SYMBOLS = ["gA", "gB", "gAC", "gAx", "rA", "purge", "reopen", "tB", "foreign"]
-LIMITS = {"roomy": 10 ** 6, "tight": 9500, "tiny": 4500}
+LIMITS = {"roomy": 10 ** 6, "tight": 9500, "exact": 8000, "tiny": 4500}
 NSHARDS = {"quick": 16, "thorough": 16}
 MAXLEN = {"quick": 4, "thorough": 5}
 NRANDOM = {"quick": 24, "thorough": 400}
@@ -190,7 +190,7 @@ def run_shard(ctx, shard):
         rng = ctx.rng()
         for i in range(shard["n"]):
             seq = random_history(rng)
-            lim = str(rng.choice(["tight", "tight", "tiny", "roomy"]))
+            lim = str(rng.choice(["tight", "tight", "tiny", "roomy", "exact"]))
             run_history(ctx, seq, lim, work, delays_seed=int(rng.integers(0, 2 ** 31)))
     else:
         named_caches(ctx, work)
